@@ -13,6 +13,7 @@ import SmppVerif.Lemmas.Ledger
 import SmppVerif.Lemmas.RcptHistory
 import SmppVerif.Lemmas.SegReceipts
 import SmppVerif.Lemmas.SegResponses
+import SmppVerif.Gen.Site
 
 namespace SmppVerif.Props.C02
 open SmppVerif SmppVerif.Corr SmppVerif.Lemmas.Corr SmppVerif.Lemmas.Expiry SmppVerif.Lemmas.Ledger
@@ -279,6 +280,17 @@ example :
         [.placeholder, .placeholder, .msg { (rc 2 9) with logId := 7, extra := 8 }] := by
   decide +kernel
 
+/-- TIE TO THE SOURCE (regenerated on every run, Gen/Site.lean): `_handle_request` in source order: decode and parse the receipt inside the guarded region, reassembly of segmented inbound messages, then parse (cached) and correlate the receipt (`get_delivery`) and aggregate the segments (`get_segmented`) - the order of Model/Corr.lean `handleDeliver` -/
+theorem handle_request_step_order :
+    Gen.Site.handleRequest = ["from_pdu", "parse_receipt", "put_delivery_segmented", "parse_receipt", "get_delivery", "get_segmented"] := by
+  decide
+
+/-- TIE TO THE SOURCE (regenerated on every run, Gen/Site.lean): `get_delivery` pops the submit_sm recorded under the id, updates the status of its segment and WRITES IT BACK to the persisted store, then sweeps; `put_delivery` sweeps before it records -/
+theorem get_delivery_step_order :
+    Gen.Site.getDelivery = ["pop:_delivery_store", "get:_segment_status_store", "set:status", "set:_segment_status_store", "_remove_expired"] ∧
+    Gen.Site.putDelivery = ["_remove_expired", "monotonic", "set:_delivery_store"] := by
+  decide
+
 end SmppVerif.Props.C02
 
 #print axioms SmppVerif.Props.C02.unknown_id_empty
@@ -294,3 +306,5 @@ end SmppVerif.Props.C02
 #print axioms SmppVerif.Props.C02.segmented_message_end_to_end
 #print axioms SmppVerif.Props.C02.picked_is_last_failing
 #print axioms SmppVerif.Props.C02.picked_is_first_when_none_fails
+#print axioms SmppVerif.Props.C02.handle_request_step_order
+#print axioms SmppVerif.Props.C02.get_delivery_step_order
